@@ -38,8 +38,9 @@ NOT_DECIDED = [
     "platform strftime behaviour for years < 1000 (outside the quantifier)",
 ]
 ASSUMPTIONS = [
-    "instants lie in 1970-01-01..2100-01-01 UTC at microsecond precision "
-    "(the property's quantifier)",
+    "instants lie in 1970-01-01..2100-01-01 UTC; PV strings carry microsecond "
+    "precision, span times in nanoseconds carry a sub-microsecond remainder "
+    "0..999 ns (the property's quantifier)",
 ]
 
 WANT_NS = {"S": Fraction(10**9), "F": Fraction(1000)}
@@ -104,6 +105,11 @@ def check(rep: Report, ctx: Ctx) -> None:
            fi=to_str, node=ret2,
            detail=f"datetime fields: seconds = {d.sec.show()}, microsecond = "
                   f"{d.micro.show()} (specification: S and F)")
+    mixed = [h for h in it2.hazards if "rounding carries" in h[1]]
+    rep.ob("R16.3", "seconds and microseconds are rounded together",
+           d.rounding != "mixed", fi=to_str, node=ret2,
+           detail="; ".join(h[1] for h in mixed) or
+           f"fields obtained with one rounding ({d.rounding})")
     lossy = [h for h in it2.hazards if "lose the microsecond" in h[1]]
     rep.ob("R16.3", "float seconds keep the microsecond", not lossy,
            fi=to_str, node=ret2,
